@@ -96,8 +96,9 @@ def saveX (f : Bytes) (vmaj : Nat) (frames : Bytes) (ans : Int → Int → Int) 
 inductive Loaded
   /-- pointer 0: `_pre_load_header` raises ID3NoHeaderError, `tags = None` -/
   | noTag
-  /-- no (supported) ID3v2 header at the pointer: `find_id3v1` is asked (mutagen/id3/_id3v1.py) -/
-  | searchV1
+  /-- no ID3v2 header at the pointer (`unsupported = false`: ID3NoHeaderError) or one of a version that is
+  not 2.2/2.3/2.4 (`true`: ID3UnsupportedVersionError): `find_id3v1` is asked (mutagen/id3/_id3v1.py) -/
+  | searchV1 (unsupported : Bool)
   /-- the bytes handed to `ID3Tags._read` -/
   | tag (body : Bytes)
 deriving DecidableEq, Repr
@@ -117,7 +118,8 @@ def load (f : Bytes) : Except PyErr Loaded :=
         else
           match id3Header (f.drop h.pointer) with
           | .error .bad => .error .mutagen
-          | .error _ => .ok .searchV1
+          | .error .unsupported => .ok (.searchV1 true)
+          | .error .noHeader => .ok (.searchV1 false)
           | .ok hd =>
             -- `size = self.size - 10; if self.f_extended: size -= 4 + len(self._header._extdata)`
             let skip := match hd.ext with | some n => 4 + n | none => 0
